@@ -43,6 +43,7 @@ func main() {
 	timeout := flag.Int("timeout", 10, "solver timeout per VC (s)")
 	par := flag.Int("j", 16, "parallel solver processes")
 	scratch := flag.String("scratch", "", "scratch dir for .smt2 files")
+	replayDir := flag.String("replaydir", "", "write replay tests for failed obligations into this directory")
 	dump := flag.String("dump", "", "dump VCs of obligations matching this regexp to scratch and keep them")
 	flag.Parse()
 
@@ -76,6 +77,7 @@ func main() {
 	}
 	os.MkdirAll(*scratch, 0o755)
 	sv := newSolver(*scratch, time.Duration(*timeout)*time.Second, *par, "")
+	sv.replayDir = *replayDir
 	var onlyRe *regexp.Regexp
 	if *only != "" {
 		onlyRe = regexp.MustCompile(*only)
